@@ -134,7 +134,7 @@ func propC02(c *Ctx, r *Report) {
 	r.floor("merge.breakreach", 1)
 	r.Clauses = append(r.Clauses, "one parent per predecessor (E88): in an emitter that builds an OpPhi, every block it closes with a branch to the OpPhi's block recorded its own label - read from currentBlock between the setCurrentBlock that opened it and the consumeBlock that closes it - exactly once into the operand list")
 	c.runPhiPredecessor(r, "phi.predecessor", "spirv/internal/codegen")
-	r.floor("phi.predecessor", 4)
+	r.floor("phi.predecessor", 1)
 	r.Clauses = append(r.Clauses, "capability per instruction (E62): a function that builds an instruction whose capability is not implied by Shader (image queries, fine / coarse derivatives, subgroup operations, ray queries, float atomic add, integer dot products - table from the SPIR-V specification) declares that capability itself, or every one of its callers (to depth 3) does")
 	c.runCapOpcode(r, "cap.opcode", "spirv/internal/codegen", map[string]string{
 		"spirv/internal/codegen.atomicOpcode:OpAtomicFAddEXT": "AtomicFloat32AddEXT is declared when the atomic<f32> type is emitted (emitType, AtomicType arm), and the pointer operand of every float atomic has that type",
